@@ -10,6 +10,7 @@ pub mod reledit;
 pub mod lossy;
 pub mod pgp;
 pub mod copyright;
+pub mod wrap;
 
 #[derive(Serialize, Deserialize, Default, Debug, Clone)]
 pub struct Viol {
@@ -66,6 +67,7 @@ pub fn run_case(stage: &str, case: &Value, seed: u64) -> Outcome {
         "lossy_para" => lossy::run_edge(case, seed),
         "pgp" => pgp::run(case, seed),
         "copyright" => copyright::run(case, seed),
+        "wrap" => wrap::run(case, seed),
         "rel_lossy_rt" => relsat::run_lossy_rt(case, seed),
         _ => panic!("unknown stage {}", stage),
     }
@@ -93,6 +95,7 @@ pub fn features(stage: &str, case: &Value) -> Vec<String> {
 pub fn record(stage: &str, args: &[String]) {
     match stage {
         "deb822_edit" => edit::record(args),
+        "wrap" => wrap::record(args),
         _ => {
             eprintln!("no recorder for stage {}", stage);
             std::process::exit(2);
